@@ -100,6 +100,10 @@ SHAPES = {
     # groups that are not valid PDS3 groups below the top level (repeated keyword, keys differing in case, a block inside)
     "nestedbad": lambda c, x: c.M([("o", c.O([("h", c.G([("a", x), ("a", 2)])), ("i", c.G([("b", 1), ("B", 2)])),
                                              ("j", c.G([("k", c.G([("c", x)]))]))]))]),
+    # block names that contain the keywords the dialects write (Group1, SUBGROUP, OBJECTS, ...)
+    "kwnames": lambda c, x: c.M([("Group1", c.G([("a", x)])), ("SUBGROUP", c.G([("b", 1)])), ("OBJECTS", c.O([
+        ("c", 2), ("MyObject", c.O([("d", x)])), ("End_Group2", c.G([("e", 3)]))])), ("BEGIN_GROUPS", c.G([("f", 4)])),
+        ("OBJECT_2", c.O([("g", 5)]))]),
     "seq": lambda c, x: c.M([("a", [x, "x y", 7])]),
     "seq2": lambda c, x: c.M([("a", [[x], [1, 2]])]),
     "set": lambda c, x: c.M([("a", c.fset([x]))]),
